@@ -2,6 +2,11 @@ NOTES = ('All checks share bin/check. Fix commits in /repo are listed in known_f
          'Hooks: none committed to /repo; harness code is injected with go build -overlay (tag verif).')
 NA = {}
 TEXT = {
+ 'C06': {
+  'text': 'Theorems (Coq, all decoded field values: any int64 file lengths, any piece length, any pieces-string length): whatever metainfo.NewInfo accepts is well-formed (positive piece length, at least one piece, non-negative file lengths, no int64 wrap, sum within (PL(n-1), PLn]) - refuted for the pinned code (negative/overflowing lengths), proved after fix D3; for every accepted info NewPieces and calculateBlocks return within an explicit fuel bound linear in the input. Tied to the Go code by running the real NewInfo on generated adversarial dictionaries (negative, overflowing, extreme lengths, wrong pieces length, out-of-range piece length) and comparing accept/reject and the produced Info with the extracted model; monitor re-checks well-formedness of every accepted Info.',
+  'note': 'Not covered by a theorem: the byte-level bencode decoder (zeebo/bencode, trusted; deep-nesting stack exhaustion is recorded as a finding when listed in known_findings.json), MaxTorrentSize/MaxPieces checks of the session (plain comparisons), memory use of a huge legal piece length.',
+  'technique': 'machine-checked proof (Coq) of the acceptance predicate and loop termination + differential correspondence with the Go code',
+ },
  'C02': {
   'text': 'Theorems (Coq, every file-length vector incl. zero-length and padding files, every piece length and piece count satisfying the acceptance bounds; every section list and block size): NewPieces terminates within |files|+2 iterations per piece without panicking, yields n pieces whose sections chain gap-free and overlap-free through the concatenated files, lengths PL except the last; calculateBlocks yields ordered, disjoint blocks of size (0,bs] whose union is exactly the non-padding bytes (refuted for the pinned code, proved after fix D1). Tied to the Go code by running metainfo.NewInfo+piece.NewPieces and calculateBlocks(bs) on generated layouts biased to boundary coincidences and comparing sections/blocks with the extracted model; monitors recompute chain and tiling from the observed lists.',
   'note': 'Not yet proved (stated in DESIGN as core/ext): write/read round trip of filesection.Piece, createJobs cover, create-then-verify; these are only exercised where the evidence lists a correspondence kind for them. Trusted: kernel, extraction, harness; zeebo/bencode encodes the generated info dictionaries.',
